@@ -40,6 +40,17 @@ const USES: &[(&str, &str, &str)] = &[
     ("oldvalue", "local _u = oldvalue", "deprecated-expression"),
     ("lib", "local _u = lib.oldfield", "deprecated-field"),
     ("depr_param", "depr_param(1)", "deprecated-param"),
+    // the same uses through a parenthesised root / with trivia after the root: whatever a lint makes of
+    // them, it must make nothing of them while the root is bound by the script
+    ("math", "local _u = (math).floor(\"x\")", "paren-root-type"),
+    ("math", "local _u = (math).nope", "paren-root-no-field"),
+    ("math", "local _u = ((math)).floor(1, 2, 3)", "paren-root-count"),
+    ("table", "local _u = (table).getn(t)", "paren-root-deprecated"),
+    ("string", "local _u = (string):upper()", "paren-root-method"),
+    ("math", "local _u = math --[[c]] .floor(\"x\")", "trivia-root-type"),
+    ("math", "local _u = math\n  .nope", "trivia-root-no-field"),
+    ("oldvalue", "local _u = (oldvalue)", "paren-deprecated-expression"),
+    ("lib", "local _u = (lib).oldfield", "paren-root-deprecated-field"),
 ];
 
 /// binding constructs: (name, text before the inside use, text after it) — `{R}` is the bound name
